@@ -43,16 +43,18 @@ def baseline() -> dict:
 
 
 # --------------------------------------------------------------------------------------------- small helpers
-def _const_value(node: ast.AST):
-    """Value of a scalar constant expression, or raise ValueError."""
+def _const_value(node: ast.AST, env: Optional[Dict[str, object]] = None):
+    """Value of a scalar constant expression (names resolved through `env`, if given), or raise ValueError."""
+    if env and isinstance(node, ast.Name) and node.id in env:
+        return env[node.id]
     if isinstance(node, ast.Constant) and type(node.value) in (int, bytes, str):
         return node.value
     if isinstance(node, ast.UnaryOp) and isinstance(node.op, ast.USub):
-        v = _const_value(node.operand)
+        v = _const_value(node.operand, env)
         if type(v) is int:
             return -v
     if isinstance(node, ast.BinOp) and isinstance(node.op, (ast.Add, ast.Sub, ast.Mult, ast.LShift, ast.BitOr, ast.BitAnd)):
-        a, b = _const_value(node.left), _const_value(node.right)
+        a, b = _const_value(node.left, env), _const_value(node.right, env)
         if type(a) is int and type(b) is int:
             if isinstance(node.op, ast.LShift) and not (0 <= b <= 64):
                 raise ValueError
@@ -60,6 +62,25 @@ def _const_value(node: ast.AST):
                     ast.BitOr: a | b, ast.BitAnd: a & b}[type(node.op)]
         if isinstance(node.op, ast.Add) and type(a) is type(b) and type(a) in (bytes, str):
             return a + b
+    if isinstance(node, ast.Call) and isinstance(node.func, ast.Attribute) and node.func.attr == "join" and len(node.args) == 1 and not node.keywords \
+            and isinstance(node.func.value, ast.Constant) and type(node.func.value.value) in (str, bytes) and isinstance(node.args[0], (ast.Tuple, ast.List)):
+        parts = [_const_value(x, env) for x in node.args[0].elts]
+        if all(type(x) is type(node.func.value.value) for x in parts):
+            return node.func.value.value.join(parts)
+        raise ValueError
+    if isinstance(node, ast.BinOp) and isinstance(node.op, ast.Mod) and isinstance(node.left, ast.Constant) and type(node.left.value) is str:
+        # "text %d text" % (CONST,) - old-style formatting of constants with %d / %s / %x only
+        import re as _re
+
+        right = node.right.elts if isinstance(node.right, ast.Tuple) else [node.right]
+        vals = tuple(_const_value(x, env) for x in right)
+        specs = _re.findall(r"%(?!%)[-0-9.]*([a-zA-Z])", node.left.value)
+        if all(s in "dsxX" for s in specs) and len(specs) == len(vals):
+            try:
+                return node.left.value % vals
+            except (TypeError, ValueError):
+                raise ValueError
+        raise ValueError
     if isinstance(node, ast.Call) and isinstance(node.func, ast.Attribute) and isinstance(node.func.value, ast.Name) and node.func.value.id == "bytes" \
             and node.func.attr == "fromhex" and len(node.args) == 1 and isinstance(node.args[0], ast.Constant) and isinstance(node.args[0].value, str):
         return bytes.fromhex(node.args[0].value)
@@ -119,13 +140,18 @@ def new_scalar_constants(tree: ast.Module, known: Set[str]) -> Dict[str, object]
         elif isinstance(st, ast.AugAssign) and isinstance(st.target, ast.Name):
             binds.setdefault(st.target.id, []).append(None)
     out: Dict[str, object] = {}
-    for name, vals in binds.items():
-        if name in known or len(vals) != 1 or vals[0] is None:
-            continue
-        try:
-            out[name] = _const_value(vals[0])
-        except ValueError:
-            continue
+    for _round in range(4):  # constants defined from other new constants
+        grew = False
+        for name, vals in binds.items():
+            if name in known or name in out or len(vals) != 1 or vals[0] is None:
+                continue
+            try:
+                out[name] = _const_value(vals[0], out)
+                grew = True
+            except ValueError:
+                continue
+        if not grew:
+            break
     for n in ast.walk(tree):
         if isinstance(n, ast.Global):
             for x in n.names:
@@ -157,16 +183,21 @@ def fold_constants(tree: ast.Module, known: Set[str], stats: dict, foreign: Opti
             d = d.value
         return isinstance(e, ast.Attribute) and isinstance(d, ast.Name) and d.id in known
 
-    for name, vals in binds.items():
-        if name in known or len(vals) != 1 or vals[0] is None:
-            continue
-        try:
-            consts[name] = _const_value(vals[0])
-        except ValueError:
-            v = vals[0]
-            if isinstance(v, ast.Tuple) and v.elts and all(stable(x) for x in v.elts):
-                exprs[name] = v  # immutable tuple of stable elements: folded as an expression
-            continue
+    for _round in range(4):
+        grew = False
+        for name, vals in binds.items():
+            if name in known or name in consts or len(vals) != 1 or vals[0] is None:
+                continue
+            try:
+                consts[name] = _const_value(vals[0], consts)
+                grew = True
+            except ValueError:
+                v = vals[0]
+                if isinstance(v, ast.Tuple) and v.elts and all(stable(x) for x in v.elts):
+                    exprs[name] = v  # immutable tuple of stable elements: folded as an expression
+                continue
+        if not grew:
+            break
     # a `global NAME` anywhere disqualifies the name
     for n in ast.walk(tree):
         if isinstance(n, ast.Global):
@@ -231,6 +262,12 @@ def fold_constants(tree: ast.Module, known: Set[str], stats: dict, foreign: Opti
             tgt = st.targets[0] if isinstance(st, ast.Assign) else st.target
             if isinstance(tgt, ast.Name) and tgt.id in known:
                 st.value = _fold_concat(Fold(set()).visit(st.value))
+                try:
+                    cv = _const_value(st.value, consts)
+                    if type(cv) in (str, bytes) and not isinstance(st.value, ast.Constant):
+                        st.value = ast.copy_location(ast.Constant(value=cv), st.value)
+                except ValueError:
+                    pass
 
 
 def _fold_concat(e: ast.AST) -> ast.AST:
@@ -900,6 +937,35 @@ def desugar_walrus_loops(tree: ast.Module, stats: dict) -> None:
     ast.fix_missing_locations(tree)
 
 
+# --------------------------------------------------------------------------------------------- contextlib.suppress
+def desugar_suppress(tree: ast.Module, stats: dict) -> None:
+    """`with contextlib.suppress(E1, ..): BODY`  ->  `try: BODY except (E1, ..): pass` (the documented meaning of suppress;
+    the pinned tree writes the try/except form)."""
+
+    class S(ast.NodeTransformer):
+        def visit_With(self, node):
+            self.generic_visit(node)
+            if len(node.items) != 1 or node.items[0].optional_vars is not None:
+                return node
+            ce = node.items[0].context_expr
+            if not (isinstance(ce, ast.Call) and not ce.keywords and ce.args and not any(isinstance(a, ast.Starred) for a in ce.args)):
+                return node
+            f = ce.func
+            name = f.attr if isinstance(f, ast.Attribute) and isinstance(f.value, ast.Name) and f.value.id == "contextlib" else f.id if isinstance(f, ast.Name) else None
+            if name != "suppress":
+                return node
+            typ = ce.args[0] if len(ce.args) == 1 else ast.Tuple(elts=list(ce.args), ctx=ast.Load())
+            h = ast.ExceptHandler(type=typ, name=None, body=[ast.Pass()])
+            new = ast.Try(body=node.body, handlers=[h], orelse=[], finalbody=[])
+            for n in (h, new, h.body[0]):
+                ast.copy_location(n, node)
+            stats["suppress_blocks"] = stats.get("suppress_blocks", 0) + 1
+            return new
+
+    S().visit(tree)
+    ast.fix_missing_locations(tree)
+
+
 # --------------------------------------------------------------------------------------------- entry point
 def normalise(tree: ast.Module, modname: str, stats: dict, foreign: Optional[Dict[str, Dict[str, object]]] = None) -> None:
     base = baseline().get(modname)
@@ -908,3 +974,4 @@ def normalise(tree: ast.Module, modname: str, stats: dict, foreign: Optional[Dic
     fold_constants(tree, set(base.get("names", [])), stats, foreign)
     inline_helpers(tree, set(base.get("functions", [])), stats)
     desugar_walrus_loops(tree, stats)
+    desugar_suppress(tree, stats)
